@@ -89,6 +89,8 @@ static Verdict judge(bool victim_server, bool ecdhe, bool cauth, bool resumed, c
             if (x.seq_bad && (x.t == T_CH || x.t == T_SH)) { v.unk_at = (int) i; break; }
             if (x.seq_bad) { v.viol_at = (int) i; v.why = "handshake message_seq is not the next one"; v.sig = fmt("completed-with-bad-message-seq-%s", tok_name[x.t]); break; }
         }
+        // ciphertext in a plaintext alert record is an alert with a random level/description: almost always read as some warning and ignored
+        if (!x.prot_ok && x.enc && x.t == T_WARN) { v.weak = true; continue; }
         if (!x.prot_ok) { v.viol_at = (int) i; v.why = "record protection does not match the cipher state";
             v.sig = fmt(x.enc ? "completed-with-prematurely-encrypted-%s" : "completed-with-plaintext-%s", tok_name[x.t]);
             if (x.enc && x.t == T_CCS) v.sig = "completed-with-bad-ccs";   // ciphertext in a plaintext CCS record = a CCS body that is not the single byte 01
